@@ -141,18 +141,35 @@ namespace TAO_PEGTL_NAMESPACE
          Control< Rule >::start( static_cast< const ParseInput& >( in ), st... );
          auto result = internal::match_control_unwind< Rule, A, ( use_guard ? rewind_mode::optional : M ), Action, Control >( in, st... );
          if( result ) {
-            if constexpr( has_apply_void ) {
-               Control< Rule >::template apply< Action >( m.inputerator(), static_cast< const ParseInput& >( in ), st... );
+            const auto apply_action = [ & ] {
+               if constexpr( has_apply_void ) {
+                  Control< Rule >::template apply< Action >( m.inputerator(), static_cast< const ParseInput& >( in ), st... );
+               }
+               else if constexpr( has_apply_bool ) {
+                  result = Control< Rule >::template apply< Action >( m.inputerator(), static_cast< const ParseInput& >( in ), st... );
+               }
+               else if constexpr( has_apply0_void ) {
+                  Control< Rule >::template apply0< Action >( static_cast< const ParseInput& >( in ), st... );
+               }
+               else if constexpr( has_apply0_bool ) {
+                  result = Control< Rule >::template apply0< Action >( static_cast< const ParseInput& >( in ), st... );
+               }
+            };
+#if defined( __cpp_exceptions )
+            // An exception thrown by the action also leaves the rule: the control must see unwind().
+            if constexpr( ( has_apply || has_apply0 ) && internal::has_unwind< Control< Rule >, void, const ParseInput&, States... > ) {
+               internal::unwind_guard ug( [ & ] {
+                  Control< Rule >::unwind( static_cast< const ParseInput& >( in ), st... );
+               } );
+               apply_action();
+               ug.unwind.reset();
             }
-            else if constexpr( has_apply_bool ) {
-               result = Control< Rule >::template apply< Action >( m.inputerator(), static_cast< const ParseInput& >( in ), st... );
+            else {
+               apply_action();
             }
-            else if constexpr( has_apply0_void ) {
-               Control< Rule >::template apply0< Action >( static_cast< const ParseInput& >( in ), st... );
-            }
-            else if constexpr( has_apply0_bool ) {
-               result = Control< Rule >::template apply0< Action >( static_cast< const ParseInput& >( in ), st... );
-            }
+#else
+            apply_action();
+#endif
          }
          if( result ) {
             Control< Rule >::success( static_cast< const ParseInput& >( in ), st... );
